@@ -16,6 +16,7 @@ import Flax.Proofs.RngAlias
 import Flax.Proofs.RngReseed
 import Flax.Proofs.RngHeapSim
 import Flax.Proofs.RngRankJit
+import Flax.Proofs.RngJitKey
 
 namespace Flax.C09
 open Flax.Rng
@@ -754,6 +755,32 @@ theorem pack_counters_before_dedup_replays :
       (makeRng cfg (innerScope outer ((0 : Nat), [])) "dropout" st1).map (·.1) = .ok (keyAt true (.seed 0) [] 2)) := by
   refine ⟨by decide, by decide, ⟨_, _, rfl, rfl, rfl⟩⟩
 
+/-- **What `nn.jit`'s static cache key must contain.**  The jit-ted body is traced with the counters it finds and the counts are baked
+into the trace; the trace may be reused for another entry iff that entry would run the body identically.  If two counter tables agree
+on the module's scope `π0` *and on every descendant scope* (`AgreeBelow`: this is `scope.rng_counters`, the nested dict of own and child
+counters, which `_fingerprint_recursive` puts into the key), then any body hands out the same keys (or fails the same way) from both,
+and the tables still agree afterwards. -/
+theorem jit_cache_key_with_descendant_counters_is_sound (cfg : Cfg) (π0 : Path) (p : Prog) (hjf : p.jitFree)
+    (B : List (String × SymKey)) (rel : Path) (c1 c2 : Counts) (h : AgreeBelow π0 c1 c2) :
+    (∀ e, specProg cfg p B rel π0 c1 = .error e → specProg cfg p B rel π0 c2 = .error e) ∧
+    (∀ ks d1, specProg cfg p B rel π0 c1 = .ok (ks, d1) →
+      ∃ d2, specProg cfg p B rel π0 c2 = .ok (ks, d2) ∧ AgreeBelow π0 d1 d2) :=
+  specProg_agree cfg π0 p hjf B rel π0 c1 c2 h (List.prefix_refl π0)
+
+/-- **Counter-example for a key that holds only the scope's own counters**: the two tables agree on the jit-ted scope `[]` itself but
+the child `k` has drawn once in the second; the body (one draw in `k`) hands out different keys, so reusing the first trace for the
+second entry returns the key of a different position. -/
+theorem jit_cache_key_with_own_counters_only_is_unsound :
+    let cfg : Cfg := { sep := true, fallback := "params" }
+    let B : List (String × SymKey) := [("noise", .seed 1)]
+    let body : Prog := .sub "k" (.draw "noise" .done) .done
+    let c1 : Counts := fun _ _ => 0
+    let c2 : Counts := bump c1 ["k"] "noise"
+    (∀ s, c1 [] s = c2 [] s) ∧
+    (specProg cfg body B [] [] c1).map (·.1) = .ok [keyAt true (.seed 1) ["k"] 1] ∧
+    (specProg cfg body B [] [] c2).map (·.1) = .ok [keyAt true (.seed 1) ["k"] 2] := by
+  refine ⟨by intro s; simp [bump], rfl, rfl⟩
+
 /-- **`nn.jit` counters (repaired `lift.jit`, finding F11).**  With one delta cache per transformed function, every call
 of every jit-ted function, in every process history (any interleaving of functions, fingerprints and counter values, traced
 or served from jax's cache), leaves the counter exactly where running the body would: `c + d fn`. -/
@@ -861,6 +888,14 @@ example : reqsN cfg1 ["params", "dropout"] (.sub "A" (.jit (.draw "x" .done) (.d
 example : let outer := (bindRoot seeds0).1
     let inner := (push outer "inner" (bindRoot seeds0).2).1
     (dedupScopes [inner, outer, inner, outer]).length = 1 ∧ (packCounters [inner, outer, inner, outer]).length = 1 := by decide
+/-- `jit_cache_key_with_descendant_counters_is_sound`: two different tables that agree below `["m"]` -/
+example : AgreeBelow ["m"] (fun _ _ => 0) (bump (fun _ _ => 0) ["other"] "noise") := by
+  intro π' s hp
+  simp only [bump]
+  have : ¬ (π' = ["other"]) := by
+    intro e; subst e
+    simp at hp
+  simp [this]
 /-- `jit_call_simulated_by_heap_replay`: the initial states (`bind` root / the heap with one root dict) satisfy the hypotheses -/
 example : Rep seeds0 (bindRoot seeds0).2 (fun _ _ => 0) ∧ HeapRep CHeap.init (fun _ _ => 0) ∧ Canon CHeap.init ∧
     (find? (((0 : Nat), []) : CRef) CHeap.init.cells).isSome ∧ (find? (((0 : Nat), []) : CRef) (bindRoot seeds0).2.dicts).isSome := by
